@@ -399,6 +399,9 @@ def run(chk):
         ez = v.fn("tLweSymEncryptZero")
         zps, _ = summ.pieces(v, ez, hooks=NOINLINE)
         zr, za, zk = [p["n"] for p in ez.params]
+        # (the sample's own copy of k, set by its constructor from the parameter object, is the key's k)
+        _kk = {P(zr, "k"): sym.arrow(P(zk, "params"), "k")}
+        zps = [dict(p_, loops=[dict(l_, lo=sym.subst(l_["lo"], _kk), hi=sym.subst(l_["hi"], _kk)) if "var" in l_ else l_ for l_ in p_["loops"]]) for p_ in zps]
         from sa import coverage
         zfp = summ.forward_local_arrays(zps)          # a draw may reach b through a scratch buffer private to the call
         stz, detz, nz_ = coverage.filled_by(
